@@ -161,9 +161,11 @@ Theorem C01_T_dialog_triggers :
 Proof. exact dialog_triggers. Qed.
 Print Assumptions C01_T_dialog_triggers.
 
-(* library rail `self check input`: a rejection reaches `stop` on every path *)
-Theorem C01_T_self_check_input_stops : reject_stops_ok v1_self_check_input [] = true.
-Proof. exact self_check_input_stops. Qed.
+(* library rail `self check input` (1.0 and 2.x): a rejection reaches `stop` / `abort` on every path *)
+Theorem C01_T_self_check_input_stops :
+  reject_stops_ok v1_self_check_input [] = true /\
+  v2_reject_aborts v2lib_self_check_input "not $allowed" = true.
+Proof. exact (conj self_check_input_stops v2_self_check_input_aborts). Qed.
 Print Assumptions C01_T_self_check_input_stops.
 
 (* guardrails.co: `_user_said` finishes only after `await run input rails $user_message`;
